@@ -44,6 +44,8 @@ def write_conf(d, aperture_dependent, logd_step=0.1, version=1, name='verif', le
             for k, v in vfirst:
                 if k == 'logd_step':
                     v = '%.6f' % float(logd_step) if float('%.6f' % float(logd_step)) == float(logd_step) else v
+                if k == 'aperture_dependent':
+                    v = v.capitalize()          # Yes / No: the words are not case-sensitive
                 f.write("%s\t=\t%s\n" % (k, v))
             f.write("#logd_step = 99\n")
 
